@@ -20,6 +20,8 @@ import time
 VERIF = os.path.dirname(os.path.dirname(os.path.abspath(__file__)))
 REPO = os.environ.get("VERIF_REPO", "/repo")
 SCRATCH_ROOT = os.environ.get("VERIF_SCRATCH", "/var/tmp/verif-scratch")
+# where evidence/, logs/ and replay/generated/ are written (seed experiments redirect this)
+OUT = os.environ.get("VERIF_OUT", VERIF)
 MODULES = [
     "entry", "cache", "local_cache", "anycache", "asset", "error", "key", "dirs", "lib",
     "utils_bytes", "utils_string", "utils_cell", "utils_private",
@@ -396,7 +398,7 @@ def load_known(prop):
 def main(prop, tier, seed, extra=None):
     """extra: optional callable(root, ctx) -> list of result dicts for non-Kani engines."""
     t0 = time.time()
-    logdir = os.path.join(VERIF, "logs", f"{prop}-{tier}")
+    logdir = os.path.join(OUT, "logs", f"{prop}-{tier}")
     shutil.rmtree(logdir, ignore_errors=True)
     os.makedirs(logdir)
     harnesses = [h for h in scan_harnesses(prop) if tier == "thorough" or h.tier == "quick"]
@@ -440,7 +442,7 @@ def main(prop, tier, seed, extra=None):
                 if res["outcome"] == "fail":
                     h = next(x for x in harnesses if x.name == res["harness"])
                     k = next((k for k in known if k.get("harness") == h.name), None)
-                    rdir = os.path.join(VERIF, "replay", "generated", h.name)
+                    rdir = os.path.join(OUT, "replay", "generated", h.name)
                     info = replay(roots[h.cap], h, logdir, rdir)
                     res["replay"] = info
                     if info.get("reproduced") is False and res.get("mem_only"):
@@ -470,9 +472,20 @@ def main(prop, tier, seed, extra=None):
                     status = max(status, 2)
                     log(f"INCONCLUSIVE {res['harness']}: {res.get('why','')}")
             # a known finding whose harness now passes is simply not printed (nothing suppressed)
-        if extra is not None and status != 1:
+        if extra is not None:
             for r in extra(root, {"tier": tier, "seed": seed, "logdir": logdir}):
                 results.append(r)
+                if r.get("outcome") == "fail":
+                    ev["violations"] += 1
+                    rdir = os.path.join(OUT, "replay", "generated", re.sub(r"[^A-Za-z0-9_.-]", "_", r.get("query", "e2")))
+                    os.makedirs(rdir, exist_ok=True)
+                    rp = os.path.join(rdir, "counterexample.json")
+                    open(rp, "w").write(json.dumps(r, indent=1))
+                    log(f"VIOLATION property={prop} replay={rp}")
+                    log(f"  query={r.get('query')}: {r.get('why','')} {json.dumps(r.get('native_replay', ''))[:300]}")
+                elif r.get("outcome") == "inconclusive":
+                    status = max(status, 2)
+                    log(f"INCONCLUSIVE {r.get('query')}: {r.get('why','')}")
     except Exception as e:  # machinery failure is never a pass
         notes.append("machinery error: %r" % (e,))
         log("INCONCLUSIVE machinery error: %r" % (e,))
@@ -531,12 +544,12 @@ def finish(prop, tier, seed, ev, results, notes, status, t0):
     ev["coverage"] = cov
     ev["assumptions"] = meta.get("assumptions", [])
     ev["wall_s"] = round(time.time() - t0, 2)
-    os.makedirs(os.path.join(VERIF, "evidence"), exist_ok=True)
+    os.makedirs(os.path.join(OUT, "evidence"), exist_ok=True)
     if cov["evaluations"] < 1 or cov["distinct_nontrivial"] < 2:
         # nothing was decided (machinery failure): say so instead of inventing counts
         ev["level"] = "other"
         cov["explanation"] = "THIS RUN DECIDED NOTHING (machinery failure, see notes); no property is claimed to hold. " + cov["explanation"]
-    with open(os.path.join(VERIF, "evidence", prop + ".json"), "w") as f:
+    with open(os.path.join(OUT, "evidence", prop + ".json"), "w") as f:
         json.dump(ev, f, indent=1)
     log(f"[{prop}] tier={tier} harnesses={len(results)} pass={cov['harnesses_passed']} fail={cov['harnesses_failed']} "
         f"inconclusive={cov['harnesses_inconclusive']} wall={ev['wall_s']}s exit={status}")
